@@ -277,7 +277,7 @@ func wireNumber(s string) (*big.Int, bool) {
 	return n, ok
 }
 
-var replyCode = map[string]string{"ack": "ack", "item-not-found": "inf", "unexpected-request": "unx", "bad-request": "bad", "resource-constraint": "res"}
+var replyCode = map[string]string{"ack": "ack", "item-not-found": "inf", "unexpected-request": "unx", "bad-request": "bad", "resource-constraint": "res", "not-acceptable": "na"}
 
 // ---------------------------------------------------------------- receiver
 
@@ -294,6 +294,85 @@ type rop struct {
 	raw     bool
 	tail    []rop // kind 'C': data packets of the peer that arrive while Close waits for the answer
 	segs    []seg // kind 'd': how the body of the <data/> element is serialised (nil: one piece of plain text)
+	// kind 'd', message carrier only: the other children of the carrier <message/>, before and after
+	// the <data/> element (codes: carrierChild); shaped=false: the packet is the only child
+	shaped        bool
+	before, after []int
+	// kind 'd' / 'x': the stanza comes from somebody who is not the other end of the stream (index
+	// into otherSenders, 0 = the stream's peer): whatever sid it names, it is not a packet of this stream
+	sender int
+}
+
+// otherSenders: from attributes that are NOT the peer of the stream under test: another resource
+// of the peer's account, its bare address, a third party, the peer's server.
+var otherSenders = []string{peerJID, "peer@example.net/other", "peer@example.net", "mallory@example.org/m", "example.net"}
+
+func (o rop) from() string { return otherSenders[o.sender%len(otherSenders)] }
+
+// forStream: the packet names the stream: its sid AND its sender are the stream's.
+func (o rop) forStream() bool { return o.known && o.sender == 0 }
+
+// carrierChild: a top-level child of a carrier <message/> that is NOT the data packet of the stream
+// (the same codes as in lean/XmppModel/Model/IbbCarrier.lean).
+func carrierChild(code int, sid string) string {
+	switch code {
+	case 0:
+		return `<no-copy xmlns="urn:xmpp:hints"/>`
+	case 1:
+		return `<thread>t1</thread>`
+	case 2:
+		return `<body>QUJD</body>`
+	case 3:
+		return " \n "
+	case 4:
+		return fmt.Sprintf(`<data xmlns="urn:example:other" seq="0" sid="%s">WFhY</data>`, sid)
+	default:
+		return fmt.Sprintf(`<x xmlns="urn:example:wrap"><data xmlns="http://jabber.org/protocol/ibb" seq="0" sid="%s">WFhY</data></x>`, sid)
+	}
+}
+
+func carrierChildren(codes []int, sid string) string {
+	var b strings.Builder
+	for _, c := range codes {
+		b.WriteString(carrierChild(c, sid))
+	}
+	return b.String()
+}
+
+func shapeTok(before, after []int) string {
+	var b strings.Builder
+	b.WriteString("M")
+	for _, c := range before {
+		b.WriteByte(byte('0' + c))
+	}
+	b.WriteString(".")
+	for _, c := range after {
+		b.WriteByte(byte('0' + c))
+	}
+	return b.String()
+}
+
+func parseShapeTok(f string) (before, after []int, ok bool) {
+	if !strings.HasPrefix(f, "M") {
+		return nil, nil, false
+	}
+	h := strings.SplitN(f[1:], ".", 2)
+	if len(h) != 2 {
+		return nil, nil, false
+	}
+	for _, c := range h[0] {
+		before = append(before, int(c-'0'))
+	}
+	for _, c := range h[1] {
+		after = append(after, int(c-'0'))
+	}
+	return before, after, true
+}
+
+// among: the same packet as one child among others of its carrier message.
+func (o rop) among(before, after []int) rop {
+	o.shaped, o.before, o.after = true, before, after
+	return o
 }
 
 // seg is one piece of the serialised body of a <data/> element.  The payload of the packet is the
@@ -410,10 +489,16 @@ func canonicalSeq(s string) (int, bool) {
 func (o rop) tok() string {
 	switch o.kind {
 	case 'd':
-		if _, ok := canonicalSeq(o.seqText()); !ok {
-			return fmt.Sprintf("d:%s:x%s:%s", common.B(o.known), common.HexS(o.seqText()), o.payTok())
+		shape := ""
+		if o.msg && o.shaped {
+			shape = ":" + shapeTok(o.before, o.after)
 		}
-		return fmt.Sprintf("d:%s:%s:%s", common.B(o.known), o.seqText(), o.payTok())
+		if _, ok := canonicalSeq(o.seqText()); !ok {
+			return fmt.Sprintf("d:%s:x%s:%s%s", common.B(o.forStream()), common.HexS(o.seqText()), o.payTok(), shape)
+		}
+		return fmt.Sprintf("d:%s:%s:%s%s", common.B(o.forStream()), o.seqText(), o.payTok(), shape)
+	case 'x':
+		return "x"
 	case 'r':
 		return fmt.Sprintf("r:%d", o.n)
 	case 'b':
@@ -473,9 +558,13 @@ func runRecv(r *common.Run, maxbuf0 int, carrier string, ops []rop, class string
 		}
 		delete(p.replies, "msgerr")
 		if o.msg {
-			p.feed(fmt.Sprintf(`<message xmlns="jabber:client" id="%s" from="%s" to="me@example.net/h"><data xmlns="http://jabber.org/protocol/ibb" seq="%s" sid="%s">%s</data></message>`, id, peerJID, xmlAttr(o.seqText()), sid, o.body()))
+			var bf, af string
+			if o.shaped {
+				bf, af = carrierChildren(o.before, sid), carrierChildren(o.after, sid)
+			}
+			p.feed(fmt.Sprintf(`<message xmlns="jabber:client" id="%s" from="%s" to="me@example.net/h">%s<data xmlns="http://jabber.org/protocol/ibb" seq="%s" sid="%s">%s</data>%s</message>`, id, o.from(), bf, xmlAttr(o.seqText()), sid, o.body(), af))
 		} else {
-			p.feed(fmt.Sprintf(`<iq xmlns="jabber:client" type="set" id="%s" from="%s" to="me@example.net/h"><data xmlns="http://jabber.org/protocol/ibb" seq="%s" sid="%s">%s</data></iq>`, id, peerJID, xmlAttr(o.seqText()), sid, o.body()))
+			p.feed(fmt.Sprintf(`<iq xmlns="jabber:client" type="set" id="%s" from="%s" to="me@example.net/h"><data xmlns="http://jabber.org/protocol/ibb" seq="%s" sid="%s">%s</data></iq>`, id, o.from(), xmlAttr(o.seqText()), sid, o.body()))
 		}
 		return id
 	}
@@ -497,12 +586,14 @@ func runRecv(r *common.Run, maxbuf0 int, carrier string, ops []rop, class string
 		}
 		obs = append(obs, code)
 		dec, derr := base64.StdEncoding.DecodeString(o.payload)
-		valid := o.known && !closed && derr == nil && (maxbuf == 0 || unread+len(dec) <= maxbuf)
+		valid := o.forStream() && !closed && derr == nil && (maxbuf == 0 || unread+len(dec) <= maxbuf)
 		// the number the packet carries: the seq attribute read as a decimal numeral of ANY size
 		// (not reduced modulo anything); an attribute that is no numeral carries no number
 		wireNum, isNum := wireNumber(o.seqText())
 		inSeq := isNum && wireNum.Cmp(big.NewInt(int64(expSeq))) == 0
 		switch {
+		case code == "ack" && o.known && o.sender != 0:
+			r.Fail("refuse", "packet-from-somebody-else-accepted", line(), fmt.Sprintf("a data packet that names the session id of the stream but comes from %q (the stream was opened by, and is with, %q) was acknowledged: anybody who can reach the session and knows or guesses the session id can put bytes into the stream", o.from(), peerJID))
 		case code == "ack" && !inSeq:
 			key := "out-of-sequence-packet-accepted"
 			if !isNum {
@@ -515,6 +606,8 @@ func runRecv(r *common.Run, maxbuf0 int, carrier string, ops []rop, class string
 			r.Fail("refuse", "oversize-packet-accepted", line(), fmt.Sprintf("the receive buffer is limited to %d bytes (as requested, raised only to the block size), %d are buffered, a packet of %d bytes was acknowledged instead of refused with resource-constraint", maxbuf, unread, len(dec)))
 		case code == "ack" && derr != nil:
 			r.Fail("refuse", "undecodable-packet-accepted", line(), fmt.Sprintf("payload %q acknowledged", o.payload))
+		case code != "ack" && valid && inSeq && isCanonical(o.seqText()) && o.msg && o.shaped && len(o.before)+len(o.after) > 0:
+			r.Fail("deliver", "valid-packet-among-other-children-of-its-message-refused", line(), fmt.Sprintf("packet seq %d (%q) is valid and in sequence; it is the <data xmlns='http://jabber.org/protocol/ibb'/> child of a <message/> that also has other children (before: %q, after: %q); it was answered %s: the packet of a message is its IBB data child wherever it stands", o.seq, o.payload, carrierChildren(o.before, "S"), carrierChildren(o.after, "S"), code))
 		case code != "ack" && valid && inSeq && isCanonical(o.seqText()) && len(o.segs) > 1:
 			r.Fail("deliver", "valid-packet-serialised-in-several-pieces-refused", line(), fmt.Sprintf("packet seq %d is valid and in sequence; the character data of its <data/> element (%q, serialised as %s) is the base64 text %q; it was answered %s", o.seq, o.body(), segsTok(o.segs), o.payload, code))
 		case code != "ack" && valid && inSeq && isCanonical(o.seqText()) && during != "":
@@ -551,6 +644,26 @@ func runRecv(r *common.Run, maxbuf0 int, carrier string, ops []rop, class string
 				continue
 			}
 			judge(o, id, "")
+		case 'x':
+			// a <close/> that names the session id but comes from somebody else: refused, nothing happens
+			nd++
+			id := fmt.Sprintf("x%d", nd)
+			p.feed(fmt.Sprintf(`<iq xmlns="jabber:client" type="set" id="%s" from="%s" to="me@example.net/h"><close xmlns="http://jabber.org/protocol/ibb" sid="S"/></iq>`, id, o.from()))
+			toks = append(toks, "x")
+			if !p.sync() {
+				fail("serve loop does not answer after a foreign close")
+				continue
+			}
+			code, ok := replyCode[p.replies[id]]
+			if !ok {
+				code = "other:" + p.replies[id]
+			}
+			obs = append(obs, code)
+			if code == "ack" && !closed {
+				closed = true // what the code did, so that the rest of the history is judged consistently
+				packOps = append(packOps, "C")
+				r.Fail("refuse", "close-from-somebody-else-accepted", line(), fmt.Sprintf("a <close/> that names the session id of the stream but comes from %q (the stream is with %q) was answered with a result and closed the stream", o.from(), peerJID))
+			}
 		case 'b':
 			// the limit is the REQUESTED one, raised only to the negotiated block size (4 here)
 			conn.SetReadBuffer(o.n)
